@@ -469,7 +469,8 @@ But this destroys the signal, which is complex.
     signal = np.moveaxis(signal, axis, tmp_axis)
     shape = signal.shape
     working_shape = tuple(
-        [np.prod(shape[:-len(tmp_axis)]), np.prod(shape[-len(tmp_axis):])])
+        [np.prod(shape[:-len(tmp_axis)], dtype=np.int64),
+         np.prod(shape[-len(tmp_axis):], dtype=np.int64)])
     signal = np.reshape(signal, working_shape)
 
     if quantile >= 0:
